@@ -18,9 +18,39 @@ def _count_op(v, oid):
     return 0
 
 
+from facts import ty_walk as ty_walk_
+
+
 def _key_arg(R, f):
     ks = [k for k in R.key_inputs(f) if k[1] in ("owned", "keyable")]
     return ks[0] if ks else None
+
+
+def _op_type(ctx, I, f, name, variants):
+    """type of the access path `aN.i.j...` below an argument, following the known variant of enum arguments"""
+    from facts import ty_subst
+    parts = name.split(".")
+    if not (parts[0].startswith("a") and parts[0][1:].isdigit()):
+        return None
+    try:
+        t = f["mir"]["locals"][int(parts[0][1:])]["ty"]
+    except (IndexError, KeyError):
+        return None
+    prefix = parts[0]
+    for p_ in parts[1:]:
+        if t is None:
+            return None
+        pp = int(p_) if p_.isdigit() else p_
+        a = ctx.F.adts.get(t["path"]) if t["k"] == "adt" else None
+        if a and a["kind"] == "Enum" and len(a["variants"]) > 1 and isinstance(pp, int):
+            k = variants.get(prefix)
+            if k is None or pp >= len(a["variants"][k]["fields"]):
+                return None
+            t = ty_subst(a["variants"][k]["fields"][pp]["ty"], a["generics"], t.get("args", []))
+        else:
+            t = I.proj_ty(t, pp)
+        prefix += "." + p_
+    return t
 
 
 def rule_R1(ctx, R):
@@ -31,18 +61,34 @@ def rule_R1(ctx, R):
         if err:
             res.undecided(f["path"], "analysis", err, *_fnloc(ctx, f))
             continue
-        # what the argument guard owns on entry
-        st0 = State()
-        for i in range(1, f["mir"]["arg_count"] + 1):
-            I.seed_arg(st0, ("O", "a%d" % i, ()), f["mir"]["locals"][i]["ty"])
-        if not st0.locks and not st0.guards:
+        # what the argument guard owns on entry (for an enum carrier: per variant, see Interp.analyze)
+        def seeded(variants):
+            st0 = State()
+            for i in range(1, f["mir"]["arg_count"] + 1):
+                t = f["mir"]["locals"][i]["ty"]
+                a = ctx.F.adts.get(t["path"]) if t["k"] == "adt" and t.get("local") else None
+                if a and a["kind"] == "Enum" and 1 < len(a["variants"]) <= 4:
+                    k = variants.get("a%d" % i)
+                    if k is not None:
+                        from facts import ty_subst
+                        for j, fld in enumerate(a["variants"][k]["fields"]):
+                            I.seed_arg(st0, I.add_proj(("O", "a%d" % i, ()), j), ty_subst(fld["ty"], a["generics"], t.get("args", [])), 1)
+                else:
+                    I.seed_arg(st0, ("O", "a%d" % i, ()), t)
+            return st0
+        rets = [p for p in paths if p.kind == "ret"]
+
+        def variants_of_path(p):
+            return {k: v[1] for k, v in p.facts.items() if isinstance(v, tuple) and v and v[0] == "variant" and
+                    isinstance(k, str) and k.startswith("a") and k[1:].isdigit()}
+        if not any(seeded(variants_of_path(p)).locks or seeded(variants_of_path(p)).guards for p in rets):
             res.undecided(f["path"], "seed", "the consumed guard type owns no recognisable hold", *_fnloc(ctx, f))
             continue
-        rets = [p for p in paths if p.kind == "ret"]
         bad = None
         if not rets:
             bad = "no normal return path"
         for p in rets:
+            st0 = seeded(variants_of_path(p))
             for r in st0.locks:
                 if p.locks.get(r) != "U":
                     bad = "lock %s owned by the guard is still %s when the key is returned" % (
@@ -54,6 +100,8 @@ def rule_R1(ctx, R):
                 bad = "a value is mem::forget-ed in an unlock API"
             v = p.value
             t = I.optype.get(v[1]) if v and v[0] == "op" else None
+            if t is None and v and v[0] == "op":
+                t = _op_type(ctx, I, f, v[1], variants_of_path(p))
             if not (t and t["k"] == "adt" and t["path"] == KEY and v[1].startswith("a")):
                 bad = "returned value is not the key field of the consumed guard (%r)" % (v,)
             if bad:
@@ -383,65 +431,72 @@ def rule_K1(ctx, R):
     return res
 
 
-def rule_G1(ctx, R):
-    """handle_unwind is catch -> handler -> resume."""
-    res = RuleResult("G1", "handle_unwind: try once under catch_unwind; handler only on the Err outcome; then resume_unwind")
-    try:
-        if not ctx.A.handle_unwind:
-            raise KeyError("no function calls catch_unwind")
-        f = ctx.F.fn(ctx.A.handle_unwind)
-    except KeyError as e:
-        res.undecided("<handle_unwind>", "anchor", str(e))
-        res.need(1, "handle_unwind")
-        return res
+def _g1_judge(ctx, f):
+    """None if f follows the protocol `try once under catch_unwind; handler only on the Err outcome; then resume`, else
+    (kind, message); kind 'analysis' = undecided"""
     paths, err, I = ctx.paths(f)
     if err:
-        res.undecided(f["path"], "analysis", err, *_fnloc(ctx, f))
-    else:
-        bad = None
-        seen_ok = seen_unw = False
-        for p in paths:
-            users = p.ev("USER")
-            caught = p.ev("CAUGHT")
-            begins = p.ev("CATCH_BEGIN")
-            ends = p.ev("CATCH_END") + caught
-            b0 = begins[0]["i"] if begins else -1
-            e0 = min([e["i"] for e in ends]) if ends else len(p.events)
-            # whichever parameter (or field of `self`) carries them: the callable run under catch_unwind is the try, the one
-            # run after the catch is the handler; nothing else may be called
-            tr = [u for u in users if b0 < u["i"] < e0] if begins else []
-            ca = [u for u in users if caught and u["i"] > caught[0]["i"]]
-            stray = [u for u in users if u not in tr and u not in ca]
-            if stray:
-                bad = "a callable is invoked outside the catch scope and outside the handler position"
-            if bad:
-                pass
-            elif len(tr) != 1:
-                bad = "try closure invoked %d times" % len(tr)
-            elif not caught:
-                if ca:
-                    bad = "handler runs although the try closure did not unwind"
-                elif p.kind == "ret":
-                    seen_ok = True
-                    if not (p.value and p.value[0] == "op" and p.value[1] == tr[0]["result"]):
-                        bad = "result of the try closure is not returned"
-            else:
-                if p.kind == "ret":
-                    bad = "a caught panic is swallowed: the function returns normally after the handler"
-                elif len(ca) != 1:
-                    bad = "handler invoked %d times after a caught panic" % len(ca)
-                elif p.kind == "unwind":
-                    seen_unw = True
-                if ca and caught and ca[0]["i"] < caught[0]["i"]:
-                    bad = "handler runs before the panic is caught"
-            if bad:
-                res.bad(Violation("G1", f["path"], "shape", bad + " (path: %s)" % p.trace()[:300], *_fnloc(ctx, f)))
-                break
-        if not bad:
-            if seen_ok and seen_unw:
-                res.ok(f["path"])
-            else:
-                res.bad(Violation("G1", f["path"], "shape", "missing success or unwinding path", *_fnloc(ctx, f)))
+        return ("analysis", err)
+    bad = None
+    seen_ok = seen_unw = False
+    for p in paths:
+        users = p.ev("USER")
+        caught = p.ev("CAUGHT")
+        begins = p.ev("CATCH_BEGIN")
+        ends = p.ev("CATCH_END") + caught
+        b0 = begins[0]["i"] if begins else -1
+        e0 = min([e["i"] for e in ends]) if ends else len(p.events)
+        # whichever parameter (or field of `self`) carries them: the callable run under catch_unwind is the try, the one
+        # run after the catch is the handler; nothing else may be called
+        tr = [u for u in users if b0 < u["i"] < e0] if begins else []
+        ca = [u for u in users if caught and u["i"] > caught[0]["i"]]
+        stray = [u for u in users if u not in tr and u not in ca]
+        if stray:
+            bad = "a callable is invoked outside the catch scope and outside the handler position"
+        if bad:
+            pass
+        elif len(tr) != 1:
+            bad = "try closure invoked %d times" % len(tr)
+        elif not caught:
+            if ca:
+                bad = "handler runs although the try closure did not unwind"
+            elif p.kind == "ret":
+                seen_ok = True
+                if not (p.value and p.value[0] == "op" and p.value[1] == tr[0]["result"]):
+                    bad = "result of the try closure is not returned"
+        else:
+            if p.kind == "ret":
+                bad = "a caught panic is swallowed: the function returns normally after the handler"
+            elif len(ca) != 1:
+                bad = "handler invoked %d times after a caught panic" % len(ca)
+            elif p.kind == "unwind":
+                seen_unw = True
+            if ca and caught and ca[0]["i"] < caught[0]["i"]:
+                bad = "handler runs before the panic is caught"
+        if bad:
+            return ("shape", bad + " (path: %s)" % p.trace()[:300])
+    if not (seen_ok and seen_unw):
+        return ("shape", "missing success or unwinding path")
+    return None
+
+
+def rule_G1(ctx, R):
+    """handle_unwind is catch -> handler -> resume."""
+    res = RuleResult("G1", "handle_unwind (every function that calls catch_unwind): try once under catch_unwind; handler only on "
+                           "the Err outcome; then resume_unwind")
+    if not ctx.A.handle_unwinds:
+        res.undecided("<handle_unwind>", "anchor", "no function calls catch_unwind")
+        res.need(1, "handle_unwind")
+        return res
+    for path in ctx.A.handle_unwinds:
+        f = ctx.F.fn(path)
+        j = _g1_judge(ctx, f)
+        if j is None:
+            res.ok(f["path"])
+        elif j[0] == "analysis":
+            res.undecided(f["path"], "analysis", j[1], *_fnloc(ctx, f))
+        else:
+            res.bad(Violation("G1", f["path"], "shape", j[1], *_fnloc(ctx, f)))
     res.need(1, "handle_unwind")
     return res
 
@@ -460,16 +515,17 @@ def call_sites(ctx, pred):
 
 
 def rule_G2(ctx, R):
-    res = RuleResult("G2", "catch_unwind is called nowhere but in handle_unwind (no panic is swallowed elsewhere)")
+    res = RuleResult("G2", "catch_unwind is called nowhere but in functions that follow the handle_unwind protocol (no panic is "
+                           "swallowed anywhere)")
     sites = call_sites(ctx, lambda c: c["def"] == "std::panic::catch_unwind")
-    ctrl = 0
     for f, t in sites:
-        if ctx.F.top_fn(f)["path"] == ctx.A.handle_unwind and not ctx.A.notes:
-            ctrl += 1
+        top = ctx.F.top_fn(f)
+        j = _g1_judge(ctx, top) if top["kind"] != "Closure" else ("shape", "catch_unwind inside a closure")
+        if j is None:
             res.ok("positive control: " + f["path"])
         else:
-            res.bad(Violation("G2", ctx.F.top_fn(f)["path"], "catch_unwind", "catch_unwind outside handle_unwind",
-                              f["span"]["file"], t.get("line")))
+            res.bad(Violation("G2", top["path"], "catch_unwind", "catch_unwind outside handle_unwind: %s does not follow the "
+                              "catch -> handler -> resume protocol (%s)" % (top["path"], j[1][:200]), f["span"]["file"], t.get("line")))
     res.need(1, "catch_unwind call sites (positive control)")
     return res
 
@@ -523,6 +579,59 @@ def rule_R6(ctx, R):
         else:
             res.ok(f["path"])
     res.need(13, "safe functions consuming key carriers")
+    return res
+
+
+def rule_X4(ctx, R):
+    """a guard handed in and a guard handed back are one continuous hold."""
+    res = RuleResult("X4", "continuity: a safe function that consumes a guard (key carrier or hold) and returns a guard never releases "
+                           "or re-acquires, in between, a lock the consumed guard held - the section the caller sees as one is one "
+                           "(no window in which another thread's exclusive section can run)")
+    from roles import contains_by_value
+    carriers = set(R.key_carriers) | set(R.holdtypes)
+    n = 0
+    for f in ctx.F.fns:
+        if "inputs" not in f or f.get("unsafe") or not f.get("reachable") or "mir" not in f:
+            continue
+        if not any(t["k"] == "adt" and t["path"] in carriers for t in f["inputs"]):
+            continue
+        if not any(x["k"] == "adt" and x["path"] in carriers for x in ty_walk_(f["output"])):
+            continue
+        paths, err, I = ctx.paths(f)
+        if err:
+            res.undecided(f["path"], "analysis", err, *_fnloc(ctx, f))
+            continue
+        n += 1
+        bad = None
+        for p in paths:
+            if p.kind != "ret" or p.value is None:
+                continue
+            st0 = State()
+            vs = {k: v[1] for k, v in p.facts.items() if isinstance(v, tuple) and v and v[0] == "variant" and isinstance(k, str)}
+            for i in range(1, f["mir"]["arg_count"] + 1):
+                t = f["mir"]["locals"][i]["ty"]
+                a = ctx.F.adts.get(t["path"]) if t["k"] == "adt" and t.get("local") else None
+                if a and a["kind"] == "Enum" and 1 < len(a["variants"]) <= 4:
+                    k = vs.get("a%d" % i)
+                    if k is not None:
+                        from facts import ty_subst
+                        for j, fld in enumerate(a["variants"][k]["fields"]):
+                            I.seed_arg(st0, I.add_proj(("O", "a%d" % i, ()), j), ty_subst(fld["ty"], a["generics"], t.get("args", [])), 1)
+                else:
+                    I.seed_arg(st0, ("O", "a%d" % i, ()), t)
+            # does the result still carry a hold? (a returned key alone is an unlock API: R1/R6)
+            if not val_contains(p.value, lambda x: x[0] == "agg" and x[1] == "adt" and x[2] in carriers and x[2] != KEY):
+                continue
+            for r in st0.locks:
+                gap = [e for e in p.events if e["k"] in ("REL", "ACQ", "TRY") and e.get("recv") == r]
+                if gap:
+                    bad = "%s is %s between the guard handed in and the guard handed back (path: %s)" % (
+                        ctx.arg_name(f, r), "released" if gap[0]["k"] == "REL" else "re-acquired", p.trace()[:300])
+        if bad:
+            res.bad(Violation("X4", f["path"], "continuity", bad, *_fnloc(ctx, f)))
+        else:
+            res.ok(f["path"])
+    res.notes.append("%d guard-to-guard functions" % n)
     return res
 
 
